@@ -56,6 +56,100 @@ CLAIMED = {
         note="Trusted: the per-function definitions in mc/props/c06.py and mc/core/refsem.py. Int/Real arguments are "
              "confined to the pools; operands are symbols or literals, not compound terms.",
         design="§3 C06"),
+    "C05": dict(
+        category="exploration",
+        technique="bounded-exhaustive enumeration of (formula, substitution map / function interpretation) pairs; "
+                  "object identity against an independent reference implementation of most-general / most-specific "
+                  "replacement, and the substitution lemma by exhaustive evaluation",
+        text="All terms of five dedicated profiles (incl. nested/shadowing quantifiers and shared sub-DAGs) x all "
+             "type-correct maps with up to 2 (shallow parts 3) keys that are symbols or arbitrary sub-terms x all "
+             "acyclic interpretations of 1-2 function symbols, through FNode.substitute, env.substituter and fresh "
+             "MGS/MSS instances. The result must BE the formula built by the reference replacement; for capture-free "
+             "symbol maps the lemma ev(sub(f,s),I)=ev(f,I[x->ev(s x,I)]) is checked under every interpretation.",
+        note="Trusted: RefSub in mc/props/c05.py (written from the Substituter docstrings) and refsem. Capture cases "
+             "and maps whose keys are free symbols of interpretation bodies are compared with the documented "
+             "replacement only.",
+        design="§3 C05"),
+    "C10": dict(
+        category="exploration",
+        technique="bounded-exhaustive enumeration of Boolean skeletons over theory atoms and quantifiers; equivalence by "
+                  "exhaustive evaluation under every interpretation plus independent shape predicates",
+        text="nnf, prenex_normal_form, aig, TimesDistributor, conjunctive/disjunctive partition, propagate_toplevel "
+             "and both Boolean quantifier eliminators are run on every formula of 30 (thorough 34) parts (skeleton depth "
+             "<=3 over <=3 atoms of 14 kinds, Boolean ITE/IFF in both polarities, nested/alternating/shadowing "
+             "quantifiers over Bool, BV1-2, Int); outputs are compared with the input under every interpretation and "
+             "against the advertised shape.",
+        note="Trusted: refsem and the shape predicates in mc/props/c10.py. Int/Real quantifiers range over explicit "
+             "finite domains. Clean errors outside a procedure's documented fragment are counted, not reported.",
+        design="§3 C10"),
+    "C11": dict(
+        category="exploration",
+        technique="bounded-exhaustive enumeration of quantifier-free formulas; for every interpretation of the input "
+                  "symbols all assignments of the fresh symbols are enumerated (model-by-model equisatisfiability)",
+        text="cnf, cnf_as_set, CNFizer and PolarityCNFizer on all skeletons of depth <=2 (six atom alphabets) and depth 3 "
+             "over two atoms; Ackermannizer on chains/nests of applications. Shape is checked by an independent "
+             "predicate; every model of the input must extend to the fresh symbols and every model of the output must "
+             "satisfy the input (for Ackermann: with function tables read off the fresh constants).",
+        note="Trusted: refsem, the shape predicates and the extension search in mc/props/c11.py (Int-sorted fresh "
+             "constants are searched among application values and the pools; finite sorts are exact).",
+        design="§3 C11"),
+    "C12": dict(
+        category="exploration",
+        technique="bounded-exhaustive enumeration of terms of all profiles; each analysis compared with an independent "
+                  "explicit-stack definition, plus semantic dependence tests by exhaustive evaluation",
+        text="Free symbols, atoms, quantifier-freeness, sorts and the six size measures are recomputed independently for "
+             "every term (nine theory profiles plus mixed/shadowing/Boolean-in-theory profiles and shared-DAG chains); "
+             "additionally the value must not depend on symbols not reported free and the truth value of a qf formula "
+             "must be a function of the valuation of the reported atoms (all interpretations enumerated).",
+        note="Trusted: the reference definitions in mc/props/c12.py and refsem. Where the documentation is ambiguous "
+             "(BOOL_DAG reading, SYMBOLS) both readings are accepted.",
+        design="§3 C12"),
+    "C13": dict(
+        category="exploration",
+        technique="exhaustive check of the finite order/selection relations over all theories and named logics, plus "
+                  "bounded-exhaustive enumeration of formulas against an independent feature extraction",
+        text="(a) all pairs/triples of the 864 (thorough 1728) well-formed theory vectors and of the 76 named logics: "
+             "partial order, combine is an upper bound, get_closer_logic / most_generic_logic / get_closer_smtlib_logic "
+             "over the library's own supported lists and all subsets of size <=2 (thorough <=3) of the base logics, and "
+             "the factory's solver selection; (b) for every term of all profiles an independent extraction of required "
+             "features must be enabled by get_logic / get_theory / the set-logic of smtlibscript_from_formula.",
+        note="Trusted: the feature extraction in mc/props/c13.py. A clean NoLogicAvailableError is safe and counted.",
+        design="§3 C13"),
+    "C17": dict(
+        category="model_checking", engine="explorer",
+        technique="explicit-state BFS over SmtLibSolver API histories on the real wrapper against a strict in-memory "
+                  "SMT-LIB reference solver with byte-tagged reply streams",
+        text="All reachable states to depth 5 (thorough 6-7) over add_assertion (symbols first seen at different "
+             "levels, incl. UF and custom sorts), push/pop 1-2, reset, solve, get_value, get_model, is_sat/is_valid/"
+             "is_unsat, plus the factory shortcuts: the strict solver must never answer (error ...), no non-blank reply "
+             "byte may be unread when the next command arrives, no read may block, depths agree, verdicts equal the "
+             "solver's answer and brute-force truth, models/values are the solver's.",
+        note="Trusted: mc/core/smtref.py (independent SMT-LIB reader/sort checker/evaluator) and strictsolver.py; Popen "
+             "and time.sleep are rebound inside pysmt.smtlib.solver. Blank bytes are not a reply. One known finding "
+             "(reset_assertions keeps declared sets) prunes the branches below its trigger.",
+        design="§3 C17"),
+    "C19": dict(
+        category="model_checking", engine="sched",
+        technique="stateless model checking of Portfolio._solve/_run_solver under a controlled scheduler: every "
+                  "interleaving at IPC granularity (CHESS-style preemption bound for 3-4 members)",
+        text="For every configuration (member behaviours in {answers with first/last model, unknown, raises, exits "
+             "silently}^n, n=2 unbounded, n=3-4 under a preemption bound; six caller scripts; exit_on_exception; "
+             "sat/unsat) every schedule is executed on the real code; each must return the agreed verdict, a model "
+             "that satisfies the assertions, or - if every member fails - an error, never a deadlock.",
+        note="Processes are scheduler-controlled threads; kill is synchronous at IPC granularity; objects crossing "
+             "queues/pipes are pickled. Silent death of every member is a known finding (needs liveness polling).",
+        design="§3 C19"),
+    "C20": dict(
+        category="exploration", engine="workmon",
+        technique="exhaustive grid operation x nestable operator x family (chain/diamond) x size with an external "
+                  "work monitor counting walker callbacks, created nodes and python-level calls per distinct node",
+        text="20 operations x 41 (thorough 45) operators/argument positions x chains and diamonds at n=50/100/200, "
+             "diamonds of height 60 and chains of depth 5000-20000 under the default recursion limit: at most one "
+             "callback per (walker, node), counters linear in the number of distinct nodes, doubling n at most doubles "
+             "the work, no RecursionError. No wall-clock time enters a verdict.",
+        note="Trusted: mc/core/workmon.py (monitor installed from outside) and the per-operation constants in "
+             "mc/props/c20.py. Known finding: Simplifier plus/times flattening is super-linear.",
+        design="§3 C20"),
     "C16": dict(
         category="model_checking", engine="explorer",
         technique="exhaustive enumeration of all legal SMT-LIB command sequences up to a length bound against an "
@@ -78,11 +172,15 @@ for i in range(1, 21):
     PENDING["C%02d" % i] = "check designed in DESIGN.md §3 but not built yet in this revision; no claim is made"
 
 ENGINES = [
+    dict(name="sched", path="mc/core/sched.py", serves_properties=["C19"],
+         kind_free_text="controlled scheduler (virtual Process/Queue/Pipe), DFS over all schedules with replayed prefixes, optional preemption bound"),
+    dict(name="workmon", path="mc/core/workmon.py", serves_properties=["C20"],
+         kind_free_text="external work monitor (walker callbacks, create_node, python-level calls)"),
     dict(name="table", path="mc/props/c06.py", serves_properties=["C06"],
          kind_free_text="exhaustive table-driven enumeration over finite operand domains"),
-    dict(name="explorer", path="mc/core/explorer.py", serves_properties=["C16"],
+    dict(name="explorer", path="mc/core/explorer.py", serves_properties=["C16", "C17"],
          kind_free_text="explicit-state breadth-first search over API histories replayed on fresh real objects in lock-step with a reference model"),
-    dict(name="sweep", path="mc/core/sweep.py", serves_properties=["C01", "C02", "C03"],
+    dict(name="sweep", path="mc/core/sweep.py", serves_properties=["C01", "C02", "C03", "C05", "C10", "C11", "C12", "C13"],
          kind_free_text="sharded bounded-exhaustive term enumeration (termgen) + reference semantics (refsem)"),
 ]
 
